@@ -95,6 +95,7 @@ fn main() {
         } else {
             "?".to_string()
         };
+        eprintln!("panic: {} {}", loc, msg); // stderr is shown only when the harness itself fails
         *orch::LAST_PANIC.lock().unwrap() = format!("{} {}", loc, msg);
     }));
     let input = std::fs::read_to_string(&args[2]).expect("cannot read input file");
